@@ -628,9 +628,49 @@ def planted_families(rule_set):
 def report(ctx, label, res, replay):
     seen = False
     for key, what in res.violations:
-        seen = True
-        ctx.violation(key, f"{label}: {what}", replay)
+        if ctx.violation(key, f"{label}: {what}", replay) != "known":
+            seen = True
     return seen
+
+
+def generated_host(host_seed, h):
+    """The h-th host of the generated stream (a function of its own seed, so a replay file can rebuild it)."""
+    import random
+    rng = random.Random(host_seed)
+    rule_set = RULE_SETS[h % len(RULE_SETS)]
+    size = rng.choice([4, 6, 8, 12])
+    gen = G.HostGen(rng, planted_families(rule_set), size=size, nest=rng.choice([0.0, 0.3, 0.6]))
+    host = gen.host(n_inputs=rng.choice([1, 2, 3]), depth=rng.choice([0, 1, 2]))
+    live_host(host, gen)
+    return rng, rule_set, host
+
+
+def replay(doc):
+    """./check C07 --replay <file>: re-run the recorded input through the real rewriter and the oracles."""
+    import json
+    r = doc.get("replay", {})
+    print(json.dumps({k: v for k, v in doc.items() if k != "replay"}, indent=1))
+    if r.get("stream") == "generated" and "host_seed" in r:
+        rng, rule_set, host = generated_host(r["host_seed"], r["host_index"])
+        res, model = eval_host(None, f"gen{r['host_index']}", host, rule_set, rng)
+        import onnx
+        print(onnx.printer.to_text(model))
+        if res.new is not None:
+            print("---- rewritten ----")
+            print(onnx.printer.to_text(res.new))
+        for key, what in res.violations:
+            print("REPRODUCED", key, "--", what[:600])
+        return 1 if res.violations else 0
+    if r.get("stream") == "targeted":
+        ctx = common.Ctx(PROPERTY, "quick", doc.get("seed", 0))
+        stream_targeted(ctx)
+        hits = [k for k, _ in ctx.known_hits] + [v["key"] for v in ctx.violations]
+        import shutil
+        shutil.rmtree(ctx.scratch, ignore_errors=True)
+        print("targeted stream reproduces:", hits)
+        return 1 if doc.get("key") in hits else 0
+    print(json.dumps(r, indent=1)[:4000])
+    return 0
 
 
 def stream_generated(ctx, n_hosts):
@@ -641,13 +681,8 @@ def stream_generated(ctx, n_hosts):
     host_violated = set()
     seeds = [ctx.rng.getrandbits(48) for _ in range(n_hosts)]
     for h in range(n_hosts):
-        import random
-        rng = random.Random(seeds[h])
-        rule_set = RULE_SETS[h % len(RULE_SETS)]
-        size = rng.choice([4, 6, 8, 12])
-        gen = G.HostGen(rng, planted_families(rule_set), size=size, nest=rng.choice([0.0, 0.3, 0.6]))
-        host = gen.host(n_inputs=rng.choice([1, 2, 3]), depth=rng.choice([0, 1, 2]))
-        live_host(host, gen)
+        rng, rule_set, host = generated_host(seeds[h], h)
+        size = None
         label = f"gen{h}"
         res, model = eval_host(ctx, label, host, rule_set, rng, want_ref=(ctx.tier == "thorough" or h % 3 == 0))
         tags = sorted(host.tags)
@@ -959,7 +994,7 @@ def run(ctx):
     ctx.assume("a call of a model-local function is an opaque kernel in Graph/Sem.v; a rewrite inside a function body is covered as a "
                "rewrite of that body's graph")
     ctx.trust("harness/c07_trace.py: wrappers around RewriteRuleSet._apply_to_graph_or_function, RewriteRule.try_rewrite and "
-              "onnx_ir.convenience.replace_nodes_and_values (observation only), token assignment, IR -> Coq literal printers; graph_eqb in Rewrite/Apply.v")
+              "onnx_ir.convenience.replace_nodes_and_values (observation only), token assignment, IR -> Coq literal printers")
     ctx.check_props()
 
     quick = ctx.tier == "quick"
@@ -973,7 +1008,7 @@ def run(ctx):
 
     failing, uncovered = coq_replay(ctx, cases)
     if failing is not None:
-        CODE = {1: "path leads nowhere", 2: "side conditions of the soundness theorem fail (side_okb)", 3: "ill-formed application",
+        CODE = {1: "path leads nowhere", 2: "side conditions of the soundness theorem fail for a removing application (side_okb)", 3: "ill-formed application",
                 4: "replay through the model differs from the graph the implementation produced"}
         for label, (code, step) in sorted(failing.items()):
             host = label.split("/")[0]
@@ -981,8 +1016,12 @@ def run(ctx):
                 continue                                # the property oracle already produced the failing input
             ctx.tie_broken("correspondence", "apply:replay", f"{label}: application {step}: {CODE.get(code, code)}")
         ctx.obligation(f"correspondence apply: {len(cases)} sweeps of the real rewriter replayed through Rewrite/Apply.v "
-                       "(apply_pass reproduces the final graph; side_okb holds at every splice)", not failing,
+                       "(apply_pass reproduces the final graph; side_okb holds at every removing splice)", not failing,
                        "; ".join(f"{k}:{v}" for k, v in list(failing.items())[:5]))
+        ctx.obligation("every keeping application (remove_nodes=False) satisfies the executable side conditions keep_okb of the keeping theorem",
+                       uncovered == 0, f"{uncovered} outside")
+        if uncovered:
+            ctx.tie_broken("correspondence", "apply:keep-side-conditions", f"{uncovered} keeping applications do not satisfy keep_okb")
     bad_wf, bad_imp = coq_wf(ctx, wf)
     if bad_wf is not None:
         for label in bad_wf:
